@@ -29,7 +29,11 @@ CTagsS == {"since"}
 CNoFaults == {}
 CKnown == {"writer_action_identifier", "validate_position_lost_on_continuation"}
 CAllFaults == {"unbal", "dbl", "empty", "stray", "kv", "unknown", "nocolon", "dupparam", "duptag", "returns2",
-               "paramlate", "pre", "codebefore", "codeafter", "oneline", "noident", "attrs", "opentext"}
+               "paramlate", "pre", "codebefore", "codeafter", "oneline", "noident", "attrs", "opentext", "depann", "deptag"}
+
+CParenFaults == {"unbal", "dbl", "empty", "stray"}
+
+CValFaults == {"unknown", "kv", "depann"}
 
 CInit ==
   /\ model = M0 /\ lines = <<>>
@@ -38,7 +42,7 @@ CInit ==
        /\ g = [G0 EXCEPT !.alone = o \notin {"opentext", "oneline"},
                          !.nf = IF o \in {"codebefore", "oneline"} THEN 1 ELSE 0, !.open = o]
        /\ ps = IF o = "alone" THEN PS0 ELSE AddDiags(PS0, <<o>>)
-       /\ expected = IF o = "alone" THEN {} ELSE {StartLine}
+       /\ expected = IF o = "alone" THEN {} ELSE {<<StartLine, o>>}
 
 CFinish ==
   /\ pc = "gen" /\ g.ph # "open"
@@ -47,7 +51,7 @@ CFinish ==
        LET last == SrcLine(g, g.ln + 1)
            s1 == Fin(ps)
        IN /\ ps' = IF c = "alone" THEN s1 ELSE [s1 EXCEPT !.diags = <<[line |-> last, kind |-> "codeafter"]>> \o @]
-          /\ expected' = IF c = "alone" THEN expected ELSE expected \cup {last}
+          /\ expected' = IF c = "alone" THEN expected ELSE expected \cup {<<last, "codeafter">>}
           /\ g' = IF c = "alone" THEN g ELSE [Planted(g) EXCEPT !.close = "codeafter"]
   /\ UNCHANGED <<model, lines>>
 
@@ -66,6 +70,6 @@ CSpec == CInit /\ [][CNext]_vars
 CE(c) == pc = "gen" /\ c \in ClassesAt(g.ph) /\ \E x \in GenClass(c, g, model) : EmitX(x)
 CNextByGen == CE("ident") \/ CE("noident") \/ CE("idcont") \/ CE("param") \/ CE("lateparam") \/ CE("partcont")
               \/ CE("parttext") \/ CE("sep") \/ CE("tagempty") \/ CE("descempty") \/ CE("desctext") \/ CE("tag")
-              \/ CE("attrs") \/ CFinish \/ COut
+              \/ CE("attrs") \/ CE("deptag") \/ CFinish \/ COut
 CSpecByGen == CInit /\ [][CNextByGen]_vars
 =============================================================================
